@@ -34,21 +34,41 @@ def _leftmost(e):
     return e
 
 
+def _lin(e, sign, acc):
+    """Accumulate integer-linear terms of e into acc: {'#': const, text: coefficient}; raises ValueError on other shapes."""
+    if isinstance(e, ast.Constant) and isinstance(e.value, int) and not isinstance(e.value, bool):
+        acc["#"] = acc.get("#", 0) + sign * e.value
+    elif isinstance(e, ast.BinOp) and isinstance(e.op, (ast.Add, ast.Sub)):
+        _lin(e.left, sign, acc)
+        _lin(e.right, sign if isinstance(e.op, ast.Add) else -sign, acc)
+    elif isinstance(e, ast.Call) and isinstance(e.func, ast.Name) and e.func.id == "len" and len(e.args) == 1 or isinstance(e, (ast.Name, ast.Attribute)):
+        k = norm.raw(e)
+        acc[k] = acc.get(k, 0) + sign
+    else:
+        raise ValueError(norm.raw(e))
+    return acc
+
+
 def _start_ok(e, prev: str, sub_len: tuple[str, ...]):
-    """True/False/None(unrecognised): start offset `max(0, len(prev) - len(sub) [+- k])` with slack <= 1."""
+    """Start offset of the search relative to the seam.  True: provably <= len(prev) - len(delimiter) + 1; False: provably
+    later (the seam is skipped); None: unrecognised shape."""
     if e is None:
         return True
     b = M.match(M.compile_pat("max(0, $X)"), e)
     if b is not None:
         e = b["X"]
-    if isinstance(e, ast.Constant) and e.value == 0:
-        return True
-    k = 0
-    if isinstance(e, ast.BinOp) and isinstance(e.op, (ast.Add, ast.Sub)) and isinstance(e.right, ast.Constant) and isinstance(e.right.value, int):
-        k = e.right.value if isinstance(e.op, ast.Add) else -e.right.value
-        e = e.left
-    if isinstance(e, ast.BinOp) and isinstance(e.op, ast.Sub) and norm.raw(e.left) == f"len({prev})" and norm.raw(e.right) in sub_len:
-        return k <= 1
+    try:
+        f = {k: v for k, v in _lin(e, 1, {}).items() if v}
+    except ValueError:
+        return None
+    const = f.pop("#", 0)
+    if not f:
+        return const <= 0
+    subs = [k for k in f if k in sub_len]
+    if f.get(f"len({prev})") == 1 and len(f) == 1:
+        return False if const >= 0 else None  # starts at/after the seam: the delimiter is at least 3 bytes long
+    if f.get(f"len({prev})") == 1 and len(subs) == 1 and f[subs[0]] == -1 and len(f) == 2:
+        return const <= 1
     return None
 
 
